@@ -26,6 +26,8 @@ def run(ctx):
     ordtab.check_occurrence_tables(ctx)
     from ..rules import reqtab
     reqtab.check_requirement_tables(ctx)
+    from ..rules import memo, shared
+    memo.check(ctx, cg, ef, res, shared.api_entries(sm))
 
 
 # ---------------------------------------------------------------------------------------------- a
@@ -172,22 +174,115 @@ def ordered_view_feeds_serialiser(ctx, cg):
                      fail_detail='; '.join(short(r.ast) for r in rets), key='R-DOM.ordered-view|single-return'):
         return
     v = rets[0].ast.value
-    shape_ok = isinstance(v, ast.ListComp) and len(v.generators) == 2
+    shape_ok, detail, bad_filters = _view_shape(ctx, cg, gc, v, rets[0], 'self._child_container_tree')
+    res.check(not bad_filters, 'R-DOM.ordered-view', gc.fq, "no filter of the ordered view can drop an attached child",
+              fail_detail=str(bad_filters), key='R-DOM.ordered-view|filter', line=rets[0].line)
+    res.check(shape_ok, 'R-DOM.ordered-view', gc.fq,
+              "the ordered view is [element for leaf in container.iterate_leaves() for element in leaf.content.xml_elements] (leaf order kept), directly, "
+              "through a local list filled in that order, a memo field filled with it (coherence: R-MEMO) or a container method that returns it",
+              fail_detail=detail, key='R-DOM.ordered-view|shape', line=rets[0].line)
+
+
+def _leaf_lists(leafvar):
+    return (f"{leafvar}.content.xml_elements", f"{leafvar}.content._xml_elements")
+
+
+def _view_shape(ctx, cg, f, v, at_node, container, depth=0):
+    """Is expression v (evaluated at CFG node at_node of function f) the concatenation of the leaves' element lists of
+    `container`, in leaf order?  -> (ok, detail, filters that could drop a child)"""
+    g = cfg_of(f.node)
     detail = short(v)
-    if shape_ok:
+    if depth > 3:
+        return False, detail, []
+    if isinstance(v, ast.ListComp) and len(v.generators) == 2:
         g0, g1 = v.generators
         leafvar = unparse(g0.target)
-        shape_ok = (unparse(g0.iter) == 'self._child_container_tree.iterate_leaves()' and
-                    unparse(g1.iter) in (f"{leafvar}.content.xml_elements", f"{leafvar}.content._xml_elements") and
-                    unparse(v.elt) == unparse(g1.target))
+        ok = (unparse(g0.iter) == f"{container}.iterate_leaves()" and unparse(g1.iter) in _leaf_lists(leafvar) and unparse(v.elt) == unparse(g1.target))
         filters = [unparse(c) for c in g0.ifs + g1.ifs]
-        harmless = {f"{leafvar}.content.xml_elements", f"{leafvar}.content._xml_elements"}
-        bad_filters = [f for f in filters if f not in harmless]
-        res.check(not bad_filters, 'R-DOM.ordered-view', gc.fq, "no filter of the ordered view can drop an attached child",
-                  fail_detail=str(bad_filters), key='R-DOM.ordered-view|filter', line=rets[0].line)
-    res.check(shape_ok, 'R-DOM.ordered-view', gc.fq,
-              "the ordered view is [element for leaf in container.iterate_leaves() for element in leaf.content.xml_elements] (leaf order kept)",
-              fail_detail=detail, key='R-DOM.ordered-view|shape', line=rets[0].line)
+        return ok, detail, [x for x in filters if x not in _leaf_lists(leafvar)]
+    if isinstance(v, ast.Call) and isinstance(v.func, ast.Name) and v.func.id in ('list', 'tuple') and len(v.args) == 1 and not v.keywords:
+        return _view_shape(ctx, cg, f, v.args[0], at_node, container, depth + 1)
+    if isinstance(v, ast.Call) and isinstance(v.func, ast.Attribute) and v.func.attr == 'copy' and not v.args:
+        return _view_shape(ctx, cg, f, v.func.value, at_node, container, depth + 1)
+    if isinstance(v, ast.Subscript) and isinstance(v.slice, ast.Slice) and v.slice.lower is None and v.slice.upper is None and v.slice.step is None:
+        return _view_shape(ctx, cg, f, v.value, at_node, container, depth + 1)
+    self_name = f.params[0] if f.params else 'self'
+    if isinstance(v, ast.Attribute) and isinstance(v.value, ast.Name) and v.value.id == self_name:
+        # a memo field filled in this function
+        stores = [n for n in g.stmt_nodes() if n.kind == 'stmt' and isinstance(n.ast, ast.Assign) and any(unparse(t) == unparse(v) for t in n.ast.targets)]
+        fills = [n for n in stores if not (isinstance(n.ast.value, ast.Constant) and n.ast.value.value is None)]
+        if not fills:
+            return False, f"{detail}: an instance field that this function does not fill", []
+        bad = []
+        for n in fills:
+            ok, d, fl = _view_shape(ctx, cg, f, n.ast.value, n, container, depth + 1)
+            if not ok:
+                return False, d, fl
+            bad += fl
+        return True, detail, bad
+    if isinstance(v, ast.Name):
+        defs = dom.reaching_defs(g, v.id, at_node)
+        if not defs:
+            return False, f"{detail}: no reaching definition", []
+        bad = []
+        for d in defs:
+            val = d.ast.value if isinstance(d.ast, ast.Assign) else None
+            if isinstance(val, ast.List) and not val.elts:
+                ok, dd = _filled_in_leaf_order(f, v.id, container)
+                if not ok:
+                    return False, dd, []
+                continue
+            if val is None:
+                return False, f"{detail}: defined by `{short(d.ast)}`", []
+            ok, dd, fl = _view_shape(ctx, cg, f, val, d, container, depth + 1)
+            if not ok:
+                return False, dd, fl
+            bad += fl
+        return True, detail, bad
+    if isinstance(v, ast.Call) and isinstance(v.func, ast.Attribute) and unparse(v.func.value) == container and not v.args and not v.keywords:
+        callees = {e.callee for e in cg.by_node.get(v, []) if e.kind in ('call', 'super')}
+        if len(callees) == 1:
+            m = next(iter(callees))
+            if m.cls is not None and m.parent is None and m.params:
+                mg = cfg_of(m.node)
+                rets = [n for n in mg.reachable(mg.entry) if n.kind == 'return' and n.ast.value is not None]
+                if rets:
+                    bad = []
+                    for r in rets:
+                        ok, dd, fl = _view_shape(ctx, cg, m, r.ast.value, r, m.params[0], depth + 1)
+                        if not ok:
+                            return False, f"{m.qualname}: {dd}", fl
+                        bad += fl
+                    return True, detail, bad
+    return False, detail, []
+
+
+def _filled_in_leaf_order(f, name, container):
+    """`name = []` followed only by `for leaf in container.iterate_leaves(): name.extend(leaf.content.xml_elements)` (or the
+    nested append loop): every mutation of the list is of that form."""
+    ok_sites = set()
+    for n in walk_local(f.node, include_root=False):
+        if isinstance(n, ast.For) and unparse(n.iter) == f"{container}.iterate_leaves()" and isinstance(n.target, ast.Name) and len(n.body) == 1 and not n.orelse:
+            leafvar = n.target.id
+            st = n.body[0]
+            if isinstance(st, ast.Expr) and isinstance(st.value, ast.Call) and unparse(st.value.func) == f"{name}.extend" and len(st.value.args) == 1 \
+                    and unparse(st.value.args[0]) in _leaf_lists(leafvar):
+                ok_sites.add(st.value)
+            elif isinstance(st, ast.AugAssign) and isinstance(st.op, ast.Add) and unparse(st.target) == name and unparse(st.value) in _leaf_lists(leafvar):
+                ok_sites.add(st)
+            elif isinstance(st, ast.For) and unparse(st.iter) in _leaf_lists(leafvar) and len(st.body) == 1 and isinstance(st.body[0], ast.Expr) \
+                    and isinstance(st.body[0].value, ast.Call) and unparse(st.body[0].value.func) == f"{name}.append" \
+                    and [unparse(a) for a in st.body[0].value.args] == [unparse(st.target)]:
+                ok_sites.add(st.body[0].value)
+    if not ok_sites:
+        return False, f"{name} = [] is not filled by a loop over {container}.iterate_leaves() in leaf order"
+    for n in walk_local(f.node, include_root=False):
+        if isinstance(n, ast.Call) and isinstance(n.func, ast.Attribute) and unparse(n.func.value) == name and \
+                n.func.attr in ('append', 'extend', 'insert', 'remove', 'pop', 'sort', 'reverse', 'clear') and n not in ok_sites:
+            return False, f"`{short(n)}` edits the list outside the leaf-order fill"
+        if isinstance(n, ast.AugAssign) and unparse(n.target) == name and n not in ok_sites:
+            return False, f"`{short(n)}` edits the list outside the leaf-order fill"
+    return True, ''
 
 
 # ---------------------------------------------------------------------------------------------- c
@@ -272,6 +367,8 @@ def attach_after_occurrence_check(ctx, cg):
     sm, res = ctx.sm, ctx.res
     res.rule('R-DOM.attach-max', "the leaf that receives the new element in add_element comes, on every reaching definition, from a collection "
              "filtered by `not leaf.max_is_reached` (or is tested directly)")
+    global _SM
+    _SM = sm
     ae = sm.func('XMLChildContainer', 'add_element', T.M_CONTAINER)
     g = cfg_of(ae.node)
     attaches = dom.nodes_calling(g, lambda c: isinstance(c.func, ast.Attribute) and c.func.attr == 'add_xml_element')
@@ -320,18 +417,26 @@ def _is_filtered_comp(v) -> bool:
     return False
 
 
+_SM = None
+
+
 def _helper_returns_filtered(owner_fn, call) -> bool:
-    """`name(...)` where name is a function nested in owner_fn whose every non-None return value is a max-filtered
-    comprehension (an extracted helper)."""
-    if not (isinstance(call, ast.Call) and isinstance(call.func, ast.Name)):
+    """`name(...)` where name is a function nested in owner_fn, or `self.name(...)` where name is a method of the container
+    class, whose every non-None return value is a max-filtered comprehension (an extracted helper).  A None return cannot
+    become an attach target (subscripting it fails before the attach)."""
+    if not isinstance(call, ast.Call):
         return False
     target = None
-    for n in ast.walk(owner_fn):
-        if isinstance(n, ast.FunctionDef) and n.name == call.func.id and n is not owner_fn:
-            target = n
+    if isinstance(call.func, ast.Name):
+        for n in ast.walk(owner_fn):
+            if isinstance(n, ast.FunctionDef) and n.name == call.func.id and n is not owner_fn:
+                target = n
+    elif isinstance(call.func, ast.Attribute) and isinstance(call.func.value, ast.Name) and call.func.value.id == 'self' and _SM is not None:
+        fi = _SM.func('XMLChildContainer', call.func.attr, T.M_CONTAINER, required=False)
+        target = fi.node if fi is not None else None
     if target is None:
         return False
-    rets = [r for r in ast.walk(target) if isinstance(r, ast.Return)]
+    rets = [r for r in walk_local(target) if isinstance(r, ast.Return)]
     vals = [r.value for r in rets if r.value is not None and not (isinstance(r.value, ast.Constant) and r.value.value is None)]
     if not vals:
         return False
@@ -357,6 +462,8 @@ def _collection_filtered(g, name, use, depth=0) -> (bool, str):
         v = d.ast.value if isinstance(d.ast, ast.Assign) else None
         if _is_filtered_comp(v) or _helper_returns_filtered(g.fn, v):
             continue
+        if isinstance(v, ast.Constant) and v.value is None:
+            continue        # None cannot yield an attach target: subscripting it fails before the attach
         return False, f"`{short(d.ast, 90)}` is not a max-filtered comprehension"
     return True, ''
 
